@@ -43,6 +43,9 @@ def run(tier):
             {'label': 'mixed-all-classes-depth1', 'harness': HMixed(rich=True, meta_subsets=3, init_shapes='all'), 'monitors': mon,
              'opts': {'max_depth': 1}},
         ]
+    parts.append({'label': 'pretty-printed-running-orders', 'harness': HStory(pool=4, cap=3, max_list=2, rich=True, replace_variant=1, pretty_states=True,
+                                                                               pretty_msgs=True, layouts=('between',)),
+                  'monitors': mon, 'opts': {'max_depth': 0}})
     parts.append(live_part(tier, mon))
     return runner.graph_check(
         'C03', tier, parts, rule=RULE, vacuity=vacuity,
